@@ -7,8 +7,15 @@
 //!
 //! Mode `seq`: one case line = `<seed> <hotcold 0/1> <n> op...`; a repository is built over a
 //! permissive map store behind `RecBackend`; every op is a public entry point run on a fresh
-//! handle; output per op `name:ao=<0/1>:<ok|refused|err>:<effect classes>` joined by ` ; `.
+//! handle; output per op `name:ao=<0/1>,c=<0/1>,h=<0/1/->:<ok|refused|err>:lost=<n>:<effect classes>` joined by ` ; `.
 //!   op tokens: `<name> <flag> <dry> <variant>`
+//!   `<hotcold>` is a mode: 0 one store, 1 hot/cold, 2 one store with 64-byte fixed-size chunks
+//!   (`bigbackup` then stores 60 000 blobs, more than the indexer holds before it saves by itself).
+//!   `config_fault` = apply_config (options variant % 10) on a fresh handle with a storage fault at
+//!   one of its config writes (variant / 10: 0 cold fails, 1 hot fails, 2 cold stored but error,
+//!   3 hot stored but error); the handle is kept and ops named `h_<op>` run on it; `keep` keeps a
+//!   fresh handle.  Per op three views of the flag are printed: `ao` what a fresh `open` reads
+//!   (the hot copy for hot/cold), `c` the stored cold config, `h` the kept handle's memory.
 use std::collections::{BTreeMap, BTreeSet};
 use std::sync::{Arc, RwLock};
 
